@@ -5,7 +5,7 @@
 //! the right operand's.
 
 use crate::checks::{Case, Opts};
-use crate::exec::fnv_of;
+use crate::exec::{boundary_hash_of, fnv_of};
 use crate::model::{fmt_with, N_FMTS};
 use crate::report::*;
 use circular_buffer::CircularBuffer;
@@ -191,6 +191,17 @@ pub fn pair_case<const N: usize, const M: usize>(l: &Operand, r: &Operand) -> Ve
                 if l.contents == r.contents && fnv_of(&ua) != fnv_of(&ub2) {
                     probs.push("equal buffers of the same capacity hash differently".to_string());
                 }
+                if l.contents == r.contents && boundary_hash_of(&ua) != boundary_hash_of(&ub2) {
+                    probs.push("equal buffers of the same capacity hash differently under a hasher that is sensitive to write-call boundaries".to_string());
+                }
+                // wider integer elements take other `hash_slice` paths
+                if l.contents == r.contents {
+                    let wa: CircularBuffer<N, u32> = build(l.rot, &l.contents, |c| c as u32);
+                    let wb: CircularBuffer<N, u32> = build(r.rot, &r.contents, |c| c as u32);
+                    if boundary_hash_of(&wa) != boundary_hash_of(&wb) || fnv_of(&wa) != fnv_of(&wb) {
+                        probs.push("equal u32 buffers of the same capacity hash differently".to_string());
+                    }
+                }
             }
             if (ua == ub) != (l.contents == r.contents) {
                 probs.push(format!("u8 buffers: == gives {}", ua == ub));
@@ -211,6 +222,25 @@ pub fn pair_case<const N: usize, const M: usize>(l: &Operand, r: &Operand) -> Ve
 /// Debug under every formatter flag equals the slice's, for one operand
 pub fn debug_case<const N: usize>(l: &Operand) -> Vec<String> {
     let mut probs = vec![];
+    // comparing a buffer with ITSELF must still depend on the contents only (NaN-like elements are
+    // unequal to themselves, so a buffer holding one is unequal to itself, like the slice is)
+    {
+        let a: CircularBuffer<N, Vp> = build(l.rot, &l.contents, Vp);
+        let v: Vec<Vp> = l.contents.iter().map(|c| Vp(*c)).collect();
+        #[allow(clippy::eq_op)]
+        let (s_eq, s_ord) = (v[..] == v[..], v[..].partial_cmp(&v[..]));
+        #[allow(clippy::eq_op)]
+        if (a == a) != s_eq || (a != a) == s_eq {
+            probs.push(format!("a == a gives {}, the slice compared with itself gives {}", a == a, s_eq));
+        }
+        if a.partial_cmp(&a) != s_ord {
+            probs.push(format!("a.partial_cmp(&a) gives {:?}, the slice gives {:?}", a.partial_cmp(&a), s_ord));
+        }
+        let r: &CircularBuffer<N, Vp> = &a;
+        if (*r == a) != s_eq {
+            probs.push("comparison through a second reference to the same buffer differs".to_string());
+        }
+    }
     if l.contents.iter().any(|c| *c >= 2) {
         return probs;
     }
@@ -318,7 +348,7 @@ pub fn c13_check(n: usize, o: &Opts, rep: &mut Report) {
     // single-operand judgements: Debug, layout vacuity
     macro_rules! singles {
         ($n:literal) => {{
-            let ops = operands($n, 2);
+            let ops = operands($n, 3);
             let lay = observed_layouts::<$n>(&ops);
             rep.layouts = lay as u64;
             rep.expected_layouts = if $n == 0 { 1 } else { ($n * $n + 1) as u64 };
